@@ -12,7 +12,9 @@
    A container lives at a location; variables hold locations, so an alias is a second variable
    (or a container element) holding the same location.  Failures of the Rust code are explicit:
    Err (anyhow error, exit 1), Panic (Rust panic, exit 101).  `legacy = true` is the behaviour of the
-   tree before the fixes fixes/c13-*.diff (remove / join / map / filter), `legacy = false` after. *)
+   tree before the fixes fixes/c13-*.diff (remove / join / map / filter), `legacy = false` after.
+   Two repaired defects have no legacy rendering because the model has no element VIEWS (ArrayPtr / MapPtr /
+   Lookup stored as values): list literals and map callbacks that stored the view of `x[i]` instead of its value. *)
 From MS Require Export Base.Str.
 From Coq Require Export ZArith.
 
@@ -281,8 +283,10 @@ Definition binop_apply (op : binop) (cur x : val) : res val :=
 (* the callback is a closure of the program; the model takes it from a fixed family
      FAdd c : fn(x: int) -> int { return x + c }       FMul c : x * c
      FSuffix s : fn(x: T) -> str { return x + s }      FLen : fn(x: [T...]) -> int { return x.len() }
-     PGt c : x > c      PNe v : x != v      PLenGt c : x.len() > c     PTrue / PFalse *)
-Inductive mapfn := FAdd (c : Z) | FMul (c : Z) | FSuffix (s : str) | FLen.
+     PGt c : x > c      PNe v : x != v      PLenGt c : x.len() > c     PTrue / PFalse
+     FConst r : a callback whose body does not depend on x and evaluates to r (a value or a failure);
+                used for `fn(x: T) -> U { return w[i] }` and `{ return m[k] }` (MapElem / MapKeyElem below) *)
+Inductive mapfn := FAdd (c : Z) | FMul (c : Z) | FSuffix (s : str) | FLen | FConst (r : res val).
 Inductive pred := PGt (c : Z) | PNe (v : val) | PLenGt (c : Z) | PTrue | PFalse.
 
 Definition apply_fn (lk : look) (f : mapfn) (x : val) : res val :=
@@ -292,6 +296,7 @@ Definition apply_fn (lk : look) (f : mapfn) (x : val) : res val :=
   | FSuffix s, VInt z => Ok (VStr (show_Z z ++ s))
   | FSuffix s, VStr t => Ok (VStr (t ++ s))
   | FLen, VRef l => match lk l with KVec xs => Ok (VInt (Z.of_nat (length xs))) | _ => Fail Stuck end
+  | FConst r, _ => r
   | _, _ => Fail Stuck
   end.
 
@@ -383,7 +388,9 @@ Definition key_oval (k : key) : oval := match k with KInt z => OInt z | KStr s =
 Inductive operand :=
 | OLit (v : val)                 (* a literal: int, str or nil *)
 | OVar (x : var)                 (* a container variable (nested list, list as map value) *)
-| OElem (x : var) (i : Z).       (* x[i] read from a list *)
+| OElem (x : var) (i : Z)        (* x[i] read from a list *)
+| OCall (x : var) (i : Z).       (* f() where f = fn() -> T { return x[i] }: the `ret` instruction hands the VALUE of
+                                    the element to the caller (fixes/c13-return-element-value.diff), not a view *)
 
 Inductive cop :=
 | NewVec (dst : var) (es : list operand)          (* dst: [T...] = [e1, .., en] *)
@@ -398,6 +405,8 @@ Inductive cop :=
 | Clear (v : var)
 | Clone (dst src : var)
 | MapF (dst src : var) (f : mapfn)
+| MapElem (dst src w : var) (i : Z)               (* dst = src.map(fn(x: T) -> U { return w[i] }) *)
+| MapKeyElem (dst src m : var) (k : key)          (* dst = src.map(fn(x: T) -> V { return m[k] }) *)
 | FilterF (dst src : var) (p : pred)
 | IndexOf (v : var) (x : operand)                 (* print v.index_of(x) *)
 | Len (v : var)
@@ -428,7 +437,7 @@ Definition eval_operand (st : state) (o : operand) : res val :=
               | Some l => match hget (hp st) l with Some _ => Ok (VRef l) | None => Fail Stuck end
               | None => Fail Stuck
               end
-  | OElem x i =>
+  | OElem x i | OCall x i =>
     do lxs <- get_vec st x;
     do n <- vec_index (snd lxs) i;
     vec_at (snd lxs) n
@@ -522,6 +531,17 @@ Definition step (legacy : bool) (st : state) (c : cop) : res (state * list obs) 
   | MapF dst src f =>
     do lxs <- get_vec st src;
     do ys <- vec_map legacy (hlook (hp st)) f (snd lxs);
+    Ok (alloc st dst (CVec ys), [])
+  | MapElem dst src w i =>
+    (* the callback is only entered for a non-empty receiver; each call evaluates w[i] (bounds check -> Err)
+       and `ret` moves the value out of the element view before MapOp::then pushes it *)
+    do lxs <- get_vec st src;
+    do ys <- vec_map legacy (hlook (hp st)) (FConst (eval_operand st (OElem w i))) (snd lxs);
+    Ok (alloc st dst (CVec ys), [])
+  | MapKeyElem dst src m k =>
+    do lxs <- get_vec st src;
+    do ys <- vec_map legacy (hlook (hp st))
+               (FConst (do lkv <- get_map st m; Ok (opt_val (mget (snd lkv) k)))) (snd lxs);
     Ok (alloc st dst (CVec ys), [])
   | FilterF dst src p =>
     do lxs <- get_vec st src;
